@@ -311,6 +311,19 @@ func driveC06(o opts) error {
 		schemas: func(g *gen.G, i int) dyn.Schema { return c06Schema() },
 		tune:    func(tg *txnGen) { tg.pInvalid = 0.02; tg.pool = 3; tg.pSelect = 0.05; tg.pWait = 0.0; tg.swaps = 0.3 },
 		oracle:  oracleUnique,
+		seed: func(tg *txnGen) []TOp {
+			// a few rows with distinct index values, children referenced by their parents
+			var ops []TOp
+			n := 2 + tg.g.Intn(3)
+			for i := 0; i < n; i++ {
+				b := tg.fresh()
+				ops = append(ops, TOp{Kind: "insert", Table: "B", UUID: b, Row: map[string]val.Val{"k": val.VA(gen.AtomN('s', i+1))}})
+				ops = append(ops, TOp{Kind: "insert", Table: "A", UUID: tg.fresh(), Row: map[string]val.Val{
+					"name": val.VA(gen.AtomN('s', i)), "x": val.VA(val.Int(int64(i % 2))), "y": val.VA(gen.AtomN('s', i/2)),
+					"kids": val.VS(val.Uuid(b))}})
+			}
+			return ops
+		},
 		nontriv: func(ops []TOp, ob tObs) bool {
 			// an index value is touched by >= 2 rows within the transaction
 			seen := map[string]int{}
@@ -346,7 +359,7 @@ func driveC06(o opts) error {
 func driveC04(o opts) error {
 	p := txnProfile{prop: "C04", ncases: 120, ntxn: 8, maxOps: 4, shard: 30,
 		schemas: c04Schema,
-		tune:    func(tg *txnGen) { tg.pInvalid = 0.02; tg.pool = 3; tg.pSelect = 0.03; tg.pWait = 0.0; tg.dangling = 0.08 },
+		tune:    func(tg *txnGen) { tg.pInvalid = 0.02; tg.pool = 3; tg.pSelect = 0.03; tg.pWait = 0.0; tg.dangling = 0.05; tg.custom = c04Txn; tg.pCustom = 0.55 },
 		oracle:  oracleRI,
 		nontriv: func(ops []TOp, ob tObs) bool {
 			for i, r := range ob.Results {
@@ -372,4 +385,67 @@ func driveC04(o opts) error {
 		p.ncases, p.ntxn = 4000, 14
 	}
 	return runTxnHistories(o, p)
+}
+
+// c04Txn: transactions that move, add and remove references to *existing*
+// rows while also touching the rows involved (the referrer, the referenced
+// row, or both) in the same transaction.
+func c04Txn(tg *txnGen) []TOp {
+	g := tg.g
+	type refcol struct {
+		t *dyn.Table
+		c val.Col
+	}
+	var rcs []refcol
+	for i := range tg.sc.Tables {
+		t := &tg.sc.Tables[i]
+		for _, c := range t.Cols {
+			if c.RefTable != "" || c.VRefTable != "" {
+				rcs = append(rcs, refcol{t, c})
+			}
+		}
+	}
+	byU := func(u string) []Cond { return []Cond{{Col: "_uuid", Fn: "==", Arg: val.VA(val.Uuid(u))}} }
+	pending := map[string][]string{}
+	var ops []TOp
+	n := 1 + g.Intn(3)
+	for i := 0; i < n && len(rcs) > 0; i++ {
+		rc := rcs[g.Intn(len(rcs))]
+		referrers := tg.uuidsOf(rc.t.Name)
+		if len(referrers) == 0 {
+			// create a referrer (and maybe a target) first
+			row := map[string]val.Val{rc.c.Name: tg.value(rc.c, pending)}
+			u := tg.fresh()
+			ops = append(ops, TOp{Kind: "insert", Table: rc.t.Name, UUID: u, Row: row})
+			pending[rc.t.Name] = append(pending[rc.t.Name], u)
+			continue
+		}
+		r := referrers[g.Intn(len(referrers))]
+		target := rc.c.RefTable
+		if target == "" {
+			target = rc.c.VRefTable
+		}
+		switch g.Intn(5) {
+		case 0: // replace the whole reference column of the referrer
+			ops = append(ops, TOp{Kind: "update", Table: rc.t.Name, Where: byU(r), Row: map[string]val.Val{rc.c.Name: tg.value(rc.c, pending)}})
+		case 1: // touch a referenced row and change who references it
+			if ts := tg.uuidsOf(target); len(ts) > 0 {
+				x := ts[g.Intn(len(ts))]
+				ops = append(ops, TOp{Kind: "update", Table: target, Where: byU(x), Row: map[string]val.Val{"name": val.VA(gen.AtomN('s', g.Intn(4)))}})
+			}
+			ops = append(ops, TOp{Kind: "update", Table: rc.t.Name, Where: byU(r), Row: map[string]val.Val{rc.c.Name: tg.value(rc.c, pending)}})
+		case 2: // empty the reference column
+			ops = append(ops, TOp{Kind: "update", Table: rc.t.Name, Where: byU(r), Row: map[string]val.Val{rc.c.Name: rc.c.Default()}})
+		case 3: // delete the referrer, or a referenced row
+			if g.Chance(0.5) {
+				ops = append(ops, TOp{Kind: "delete", Table: rc.t.Name, Where: byU(r)})
+			} else if ts := tg.uuidsOf(target); len(ts) > 0 {
+				ops = append(ops, TOp{Kind: "delete", Table: target, Where: byU(ts[g.Intn(len(ts))])})
+			}
+		default: // touch the referrer's name and its references in two operations
+			ops = append(ops, TOp{Kind: "update", Table: rc.t.Name, Where: byU(r), Row: map[string]val.Val{"name": val.VA(gen.AtomN('s', g.Intn(4)))}})
+			ops = append(ops, TOp{Kind: "update", Table: rc.t.Name, Where: byU(r), Row: map[string]val.Val{rc.c.Name: tg.value(rc.c, pending)}})
+		}
+	}
+	return ops
 }
